@@ -7,7 +7,11 @@
 (* the routes r1, r2 are registered, whether T has an unknown-route        *)
 (* handler), what the OTHER four types have registered (nothing /          *)
 (* everything - must not matter), and an authentication verifier           *)
-(* (absent / present; it accepts "good" and rejects "bad" credentials).    *)
+(* (absent / present).  The verifier is a function of (route,              *)
+(* credentials) AT THE TIME OF THE REQUEST: it accepts "good" and rejects   *)
+(* "bad" credentials, accepts "scoped" credentials on route r1 only, and    *)
+(* rejects "revoked" credentials - credentials it accepted earlier on the   *)
+(* same connection and that have been revoked since.                        *)
 (* TLC enumerates the whole product, checks the gate invariant and prints  *)
 (* the decision table; vf/props/c19.py replays every row on a real         *)
 (* RequestRouter + RoutingRequestHandler - in random order on ONE handler  *)
@@ -21,12 +25,15 @@ Routes == {"r1", "r2"}
 VARIABLE c      \* one case: [type, registered, unknown, others, verifier, route, auth, pos]
 
 Cases == [type : Types, registered : SUBSET Routes, unknown : BOOLEAN, others : {"none", "all"}, verifier : BOOLEAN,
-          route : {"r1", "r2", "rX", "none"}, auth : {"absent", "bad", "good"}, pos : {"first", "after_auth", "last"}]
+          route : {"r1", "r2", "rX", "none"}, auth : {"absent", "bad", "good", "scoped", "revoked"}, pos : {"first", "after_auth", "last"}]
+
+(* what the verifier says about THIS request *)
+Accepted(x) == x.auth = "good" \/ (x.auth = "scoped" /\ x.route = "r1")
 
 (* the decision: which recorded function runs *)
 Decide(x) ==
     IF x.route = "none" THEN "error"                                   \* no routing entry: nothing can be dispatched
-    ELSE IF x.verifier /\ x.auth # "good" THEN "error"                 \* the gate: before any lookup
+    ELSE IF x.verifier /\ ~Accepted(x) THEN "error"                    \* the gate: before any lookup, for every request
     ELSE IF x.route \in x.registered THEN "handler"
     ELSE IF x.unknown THEN "unknown"
     ELSE "error"
@@ -36,7 +43,7 @@ Next == UNCHANGED c
 Spec == Init /\ [][Next]_<<c>>
 
 (* C19.gate: with a verifier configured, a request without accepted authentication runs no handler of any kind *)
-Gate == (c.verifier /\ c.auth # "good") => Decide(c) = "error"
+Gate == (c.verifier /\ ~Accepted(c)) => Decide(c) = "error"
 (* dispatch is exact: a registered route is never shadowed by the unknown-route handler, an unregistered one never reaches a handler *)
 Exact == /\ (Decide(c) = "handler" => c.route \in c.registered)
          /\ (Decide(c) = "unknown" => c.route \notin c.registered /\ c.unknown)
